@@ -115,6 +115,67 @@ def oracle_alpha(res, pid, cases):
     return n
 
 
+
+TRANSFORMS_ON = dict(remove_annotations=True, remove_pass=True, remove_literal_statements=True, combine_imports=True, remove_object_base=True, convert_posargs_to_args=True,
+                     preserve_shebang=True, remove_asserts=False, remove_debug=False, remove_explicit_return_none=True, remove_builtin_exception_brackets=True, constant_folding=True)
+
+
+def oracle_on_transformed(res, pid, sources):
+    """renaming / hoisting ON TOP OF the structural transforms: T = minify(S, every structural transform, no renaming, no hoisting) and
+    R = minify(S, the same transforms + renaming / hoisting) must be related exactly like a source and its renamed output (the transforms
+    are deterministic and run before the names are bound, so any difference is the renamer's or the hoister's: nodes created by a transform
+    carry the namespace the transform gave them)"""
+    import python_minifier
+    from python_minifier import RemoveAnnotationsOptions
+    n = 0
+    variants = [dict(rename_locals=True, rename_globals=False, hoist_literals=False), dict(rename_locals=True, rename_globals=True, hoist_literals=False),
+                dict(rename_locals=True, rename_globals=False, hoist_literals=True), dict(rename_locals=False, rename_globals=False, hoist_literals=True)]
+    if pid == 'C06':
+        variants = variants[2:] + [dict(rename_locals=True, rename_globals=True, hoist_literals=True)]
+    for i, src in enumerate(sources):
+        for ann in (True, RemoveAnnotationsOptions()):
+            base = dict(TRANSFORMS_ON, remove_annotations=ann)
+            try:
+                T = python_minifier.minify(src, rename_locals=False, rename_globals=False, hoist_literals=False, **base)
+                tt = ast.parse(T)
+            except Exception:
+                continue
+            for v in variants:
+                n += 1
+                try:
+                    R = python_minifier.minify(src, **dict(base, **v))
+                except Exception as e:   # noqa
+                    res.add_violation(pid.lower() + '-minify-raises', 'minify raised %s' % type(e).__name__, {'source': src, 'options': {k: str(w) for k, w in dict(base, **v).items()}})
+                    continue
+                if pid == 'C04':
+                    try:
+                        qt = ast.parse(R)
+                    except SyntaxError:
+                        continue
+                    mark_methods(tt)
+                    mark_methods(qt)
+                    fp = [x for x in ast.walk(tt) if isinstance(x, (ast.FunctionDef, ast.AsyncFunctionDef))]
+                    fq = [x for x in ast.walk(qt) if isinstance(x, (ast.FunctionDef, ast.AsyncFunctionDef))]
+                    if len(fp) == len(fq):
+                        for x, y in zip(fp, fq):
+                            y._in_class, y._plain_method = getattr(x, '_in_class', False), getattr(x, '_plain_method', False)
+                    (ci, bi), (co, bo) = interface(tt), interface(qt)
+                    lost = (ci - co)
+                    if v.get('hoist_literals'):
+                        lost = collections.Counter({k: c for k, c in lost.items() if k[0] not in ('unbound',)})
+                    if lost:
+                        res.add_violation('c04-interface-changed:' + '+'.join(sorted({k[0] for k in lost})) + ':after-transforms',
+                                          'interface names of the transformed module changed under renaming: missing %s' % sorted(map(repr, lost))[:4],
+                                          {'source': src, 'options': {k: str(w) for k, w in dict(base, **v).items() if w}, 'transformed': T, 'output': R})
+                    continue
+                a = scope_leg.alpha(T, R)
+                if a and pid == 'C06' and not a[0].startswith(HOIST_KINDS):
+                    continue
+                if a:
+                    res.add_violation('%s-%s' % (pid.lower(), a[0]), 'with the structural transforms on, the renamed / hoisted output is not the transformed module up to a consistent renaming: %s (%s)' % a,
+                                      {'source': src, 'options': {k: str(w) for k, w in dict(base, **v).items() if w}, 'transformed': T, 'output': R})
+    return n
+
 def oracle_c04(res, cases):
     import python_minifier
     n = 0
@@ -169,6 +230,21 @@ def oracle_c09(res, r, tier):
             variants.append('\n'.join(lines[:k] + [ind + 'print(%s)' % trig] + lines[k:]))
         variants.append(src + 'def zz_dflt(p=%s):\n    return [q for q in p if %s]\n' % (trig, trig))
         variants.append(src + 'class ZZ:\n    attr = %s\n    def m(self):\n        return (lambda: %s)()\n' % (trig, trig))
+        # the trigger as the default of a parameter that has the trigger's own name (positional, keyword-only, lambda), as a decorator,
+        # an annotation, a class base / keyword, inside an f-string, a comprehension condition, a walrus, a nested default
+        bare = trig.split('(')[0]
+        call = trig if '(' in trig else trig + "('1')"
+        if bare.isidentifier():
+            variants.append(src + 'def zz_kw(first_value, *, %s=%s):\n    second_value = first_value\n    return %s, second_value\n' % (bare, bare, bare))
+            variants.append(src + 'def zz_pos(first_value, %s=%s):\n    second_value = first_value\n    return %s, second_value\n' % (bare, bare, bare))
+            variants.append(src + 'zz_lam = lambda first_value, *, %s=%s: (first_value, %s)\n' % (bare, bare, bare))
+            variants.append(src + 'def zz_outer(long_name):\n    def zz_inner(other_name, *, %s=%s):\n        return other_name, long_name\n    return zz_inner\n' % (bare, bare))
+            variants.append(src + '@%s\ndef zz_deco(long_name):\n    return long_name\n' % bare)
+            variants.append(src + 'def zz_ann(long_name: %s = None) -> %s:\n    return long_name\n' % (bare, bare))
+            variants.append(src + 'class ZZB(%s, metaclass=%s):\n    pass\n' % (bare, bare))
+        variants.append(src + 'def zz_f(long_name):\n    return f"{%s}{long_name}"\n' % call)
+        variants.append(src + 'def zz_c(long_name):\n    return [item for item in long_name if %s]\n' % call)
+        variants.append(src + 'def zz_w(long_name):\n    if (found := %s):\n        return found, long_name\n' % call)
         for v in variants:
             if v is None or not progs.valid(v):
                 continue
@@ -287,6 +363,16 @@ def oracle_c11(res, r, tier):
     for sp in special:
         for o in (osets[1], osets[3], dict(rename_globals=True), dict(rename_globals=True, hoist_literals=False)):
             cases.append({'source': sp, 'options': o})
+    # sources that mention the special names a transform might react to, each followed by an ordinary module that the same
+    # option objects are then used for (history: a reaction must not leak into the caller's objects or the module-level defaults)
+    reactive = ["def probe(a: int, b: str = 's') -> int:\n    return a\nprint(probe.__annotations__, __annotations__)\n", '"""doc"""\nprint(__doc__)\n', "__all__ = ['kept_name']\nkept_name = 1\nother_name = 2\n",
+                "import typing\nclass Row(typing.NamedTuple):\n    a: int\n    b: str = 'b'\n", "def f():\n    return locals(), globals(), vars()\n", "__slots__ = ('x',)\nclass K:\n    __slots__ = ('long_slot_name', 'long_slot_name')\n",
+                "from dataclasses import dataclass\n@dataclass\nclass P:\n    x: int = 1\n"]
+    ordinary = "def annotated(first_arg: int, second_arg: str = 's') -> int:\n    local_value: int = first_arg\n    return local_value\nclass Holder:\n    attribute: int = 1\nprint(annotated(1), 'repeated text', 'repeated text', 'repeated text')\n"
+    for rs in reactive:
+        for o in ({}, dict(rename_globals=True), dict(remove_literal_statements=True)):
+            cases.append({'source': rs, 'options': o})
+            cases.append({'source': ordinary, 'options': o})
     n = 0
     seeds = [0, 1, 2, 3, 4, 5, 'random', 'random'] if tier == 'quick' else list(range(24)) + ['random'] * 8
     from concurrent.futures import ThreadPoolExecutor
@@ -301,6 +387,7 @@ def oracle_c11(res, r, tier):
     # history: in this process, after unrelated and related calls, sharing argument objects between calls
     shared_l, shared_g = ['keep_me'], ['keep_too']
     ann = RemoveAnnotationsOptions()
+    defaults0 = repr((python_minifier.minify.__defaults__, python_minifier.minify.__kwdefaults__, [vars(x) for x in (python_minifier.minify.__defaults__ or ()) if hasattr(x, '__dict__')]))
     for i, c in enumerate(cases):
         o = dict(c['options'])
         pl0, pg0 = copy.deepcopy(shared_l), copy.deepcopy(shared_g)
@@ -316,6 +403,21 @@ def oracle_c11(res, r, tier):
                               {'source': c['source'], 'options': c['options'], 'before': [pl0, pg0], 'after': [list(shared_l), list(shared_g)]})
             shared_l[:] = pl0
             shared_g[:] = pg0
+        if 'remove_annotations' not in c['options']:
+            # the same call relying on the module-level default option object, against a call with a fresh one
+            try:
+                d1 = python_minifier.minify(c['source'], **c['options'])
+                d2 = python_minifier.minify(c['source'], remove_annotations=RemoveAnnotationsOptions(), **c['options'])
+            except Exception:
+                d1 = d2 = None
+            n += 1
+            if d1 != d2:
+                res.add_violation('c11-history-dependent', 'the result with the default option object differs from the result with a fresh, equal option object (state leaked from an earlier call)',
+                                  {'source': c['source'], 'options': c['options'], 'got': d1, 'fresh': d2})
+        defaults1 = repr((python_minifier.minify.__defaults__, python_minifier.minify.__kwdefaults__, [vars(x) for x in (python_minifier.minify.__defaults__ or ()) if hasattr(x, '__dict__')]))
+        if defaults1 != defaults0:
+            res.add_violation('c11-default-argument-mutated', 'a module-level default argument object of minify() changed during a call', {'source': c['source'], 'options': c['options'], 'before': defaults0, 'after': defaults1})
+            defaults0 = defaults1
         fresh = dict(c['options'], preserve_locals=list(pl0), preserve_globals=list(pg0), remove_annotations=RemoveAnnotationsOptions())
         try:
             want = python_minifier.minify(c['source'], **fresh)
@@ -397,8 +499,8 @@ def run(pid, tier):
     res.trusted = TRUSTED + (HOIST_TRUSTED if pid == 'C06' else [])
     res.assumptions = ['pick returns a name outside the set it is given (the real stream never repeats: C03_generated_names_distinct for lengths 1-2)',
                        'the binding table handed to NameAssigner is well formed (wf_bindingb, checked on every table by leg R)']
-    translators = {'C03': ['namegen', 'pipeline', 'resolve'], 'C04': ['namegen', 'pipeline', 'resolve'], 'C06': [], 'C09': ['pipeline'], 'C10': ['pipeline'], 'C11': ['pipeline']}[pid]
-    models = ['Model/RenamerRun.vo', 'Proofs/RenamerProofs.vo', 'Model/ResolveRun.vo'] + (['Model/Hoist.vo'] if pid == 'C06' else []) + (['Model/ScopeRun.vo'] if pid in ('C03', 'C04') else [])
+    translators = {'C03': ['namegen', 'pipeline', 'resolve'], 'C04': ['namegen', 'pipeline', 'resolve'], 'C06': [], 'C09': ['pipeline', 'resolve'], 'C10': ['pipeline'], 'C11': ['pipeline']}[pid]
+    models = ['Model/RenamerRun.vo', 'Proofs/RenamerProofs.vo', 'Model/ResolveRun.vo'] + (['Model/Hoist.vo'] if pid == 'C06' else []) + (['Model/ScopeRun.vo'] if pid in ('C03', 'C04', 'C09') else [])
     common.standard_proof_phase(res, translators, 'Properties/%s.v' % pid, model_targets=models)
     r = common.rng(pid)
     eff = tier if (not res.broken or tier == 'thorough') else 'search'
@@ -411,19 +513,20 @@ def run(pid, tier):
         nR, nb, nren = scope_leg.leg_R(res, cases, pid.lower() + 'R')
         nH = leg_hoist_model(res, r) if pid == 'C06' else 0
         nA = (0, 0, 0, 0)
-        if pid in ('C03', 'C04') and not any(k == 'translator' and 'resolve' in str(w) for k, w in res.broken):
+        if pid in ('C03', 'C04', 'C09') and not any(k == 'translator' and 'resolve' in str(w) for k, w in res.broken):
             nA = scope_leg.leg_A(res, srcs if eff != 'quick' else srcs[:160], pid.lower() + 'A')
     bad_ref = scope_leg.leg_S(res, srcs)
     if bad_ref > max(2, len(srcs) // 50):
         res.broken.append(('reference-model', 'harness/pyscope.py disagrees with CPython symtable on %d of %d programs: the oracle is not trustworthy' % (bad_ref, len(srcs))))
     nO = 0
     ocases = with_opts(srcs, r, per=2 if eff == 'quick' else 3)
+    tsrcs = list(progs.TRANSFORM_SHAPES) + list(progs.DIRECTED) + srcs[len(progs.DIRECTED):len(progs.DIRECTED) + (40 if eff == 'quick' else 400)]
     if pid == 'C03':
-        nO = oracle_alpha(res, pid, ocases)
+        nO = oracle_alpha(res, pid, ocases) + oracle_on_transformed(res, pid, tsrcs)
     elif pid == 'C06':
-        nO = oracle_alpha(res, pid, [(s, o) for s, o in ocases if o.get('hoist_literals')] + [(s, scope_leg.optsets()[2]) for s in srcs])
+        nO = oracle_alpha(res, pid, [(s, o) for s, o in ocases if o.get('hoist_literals')] + [(s, scope_leg.optsets()[2]) for s in srcs]) + oracle_on_transformed(res, pid, tsrcs)
     elif pid == 'C04':
-        nO = oracle_c04(res, ocases)
+        nO = oracle_c04(res, ocases) + oracle_on_transformed(res, pid, tsrcs)
     elif pid == 'C09':
         nO = oracle_c09(res, r, eff)
     elif pid == 'C10':
